@@ -104,6 +104,8 @@ def cases(tier, seed):
                 for upd in (True, False):
                     out.append(dict(trainer="ivector", n=n, part=[kind, part], labels=None, mode=mode,
                                     devs=1 if tier == "quick" else 2, iters=2, upd=upd, seed=seed))
+                if mode == "shared":  # (a generator cannot cross a serialising executor)
+                    out.append(dict(trainer="ivector", n=n, part=[kind, part], labels=None, mode=mode, devs=1 if tier == "quick" else 2, iters=3, upd=True, lazy=True, seed=seed))
                 out.append(dict(trainer="ivector", n=n, part=[kind, part], labels=None, mode=mode, devs=0, iters=3, upd=True, thr=True, seed=seed))
                 out.append(dict(trainer="ivector", n=n, part=[kind, part], labels=None, mode=mode, devs=0, iters=2, upd=False, tiny=True, seed=seed))
     # pairwise-tree reduction: P singleton partitions, both parities at every level
@@ -112,6 +114,10 @@ def cases(tier, seed):
             out.append(dict(trainer="ivector", n=p, part=["delayed", [1] * p], labels=None, mode=mode,
                             devs=1 if p <= (8 if tier == "quick" else 12) else 0, iters=2, upd=True, seed=seed))
     return out
+
+
+def _one_shot(part):
+    return (st for st in part)
 
 
 def _recording_m_step(machine, stats):
@@ -145,6 +151,8 @@ def _fit(case, ubm, stats, bag):
     else:
         X = stats
     tr = case["trainer"]
+    if bag and case.get("lazy"):
+        X = X.map_partitions(_one_shot)  # every partition is a one-shot iterator (statistics produced on the fly)
     if tr == "ivector":
         np.random.seed(7)
         m = IVectorMachine(ubm, dim_t=2, max_iterations=case["iters"], update_sigma=case["upd"], variance_floor=1e-5,
@@ -227,5 +235,5 @@ def run_case(case):
     c.count("schedules", nsched)
     c.count("distinct_outcomes_gt1", 1 if len(outcomes) > 1 else 0)
     npart = case["part"][1] if case["part"][0] == "sequence" else len(case["part"][1])
-    sig = "%s|%s|%s|%s|%s|%s|%s|%s|%s" % (case["trainer"], case["n"], case["part"], case["labels"], case["mode"], case.get("upd"), case.get("pre"), case.get("thr"), case.get("tiny"))
+    sig = "%s|%s|%s|%s|%s|%s|%s|%s|%s" % (case["trainer"], case["n"], case["part"], case["labels"], case["mode"], case.get("upd"), case.get("pre"), (case.get("thr"), case.get("lazy")), case.get("tiny"))
     return c.result(nontrivial=(npart >= 2 or nsched >= 2), sig=sig)
